@@ -140,13 +140,11 @@ theorem mainLoop_weak (C : TQContract) : ∀ (f : Nat) (s : State), Good C LoopT
                   scan := topScan (pollLoop { s with imm := q', net := n2 } none (selectTimeout (some (0, 0))) s.pollq).net } } := rfl
           rw [hs3]
           generalize hs1 : pollLoop ({ s with imm := q', net := n2 } : State) none (selectTimeout (some (0, 0))) s.pollq = sp at hp
-          have hint : sp.intr = false := by
-            cases hsi : sp.intr with
-            | false => rfl
-            | true =>
-              rcases hp.intr hsi with h | h
-              · rw [selectTimeout_zero] at h; omega
-              · exact absurd h (by simp [hi'])
+          -- an interrupt request made by a signal handler during this non-blocking poll does not stop the pass
+          have hstop3 : m3.stop = none := by
+            rcases hp.stop with h | ⟨h, _⟩
+            · exact h
+            · exact absurd selectTimeout_zero h
           have hmf3 := hp.mf
           have hmf3' : m3.mustFire = true → C05.expired m3 = true := by
             intro h
@@ -159,17 +157,17 @@ theorem mainLoop_weak (C : TQContract) : ∀ (f : Nat) (s : State), Good C LoopT
             rw [hp.fired] at h0; rw [hp.sr] at hsr
             exact runnable_mono hp.imms hp.tms hp.clock (hp1 h0 hsr)
           -- second scan, from the top
-          rcases netGetS_cases hp.rel hp.stop himm3 with ⟨n4, heq4, hr4, hclear4⟩ | ⟨n4, id, m', heq4, hs, hr4, hfired⟩
+          rcases netGetS_cases hp.rel hstop3 himm3 with ⟨n4, heq4, hr4, hclear4⟩ | ⟨n4, id, m', heq4, hs, hr4, hfired⟩
           · rw [heq4]; dsimp only
             rw [if_neg (by simp [hp.fault])]
             have hnr : m3.nets.any (·.ready) = false := hclear4 rfl
-            rcases timerGet_cases hr4 hp.stop himm3 hnr with ⟨heq5, hexp⟩ | ⟨s5, id, m', heq5, hs, hr5, hfired, e1, _, e3⟩
+            rcases timerGet_cases hr4 hstop3 himm3 hnr with ⟨heq5, hexp⟩ | ⟨s5, id, m', heq5, hs, hr5, hfired, e1, _, e3⟩
             · -- nothing left to do
               rw [heq5]; dsimp only
               refine Or.inl ⟨hp.fault, m3, hp.run, hr4, ?_⟩
               show Exit 0 m3
               unfold Exit
-              rw [hp.stop]
+              rw [hstop3]
               refine ⟨rfl, fun _ => ⟨?_, ?_, ?_, ?_⟩⟩
               · rintro ⟨hsr, h0⟩
                 have := hp13 h0 hsr
@@ -180,9 +178,9 @@ theorem mainLoop_weak (C : TQContract) : ∀ (f : Nat) (s : State), Good C LoopT
               · rintro ⟨_, h⟩; rw [hnr] at h; cases h
               · rintro ⟨_, h⟩; rw [hexp] at h; cases h
             · rw [heq5]; dsimp only
-              exact fire s5 id (mkFireable (by rw [e1]; exact hp.fault) e3 hp.run hs hr5 hfired hp.stop)
+              exact fire s5 id (mkFireable (by rw [e1]; exact hp.fault) e3 hp.run hs hr5 hfired hstop3)
           · rw [heq4]; dsimp only
-            exact fire _ id (mkFireable hp.fault rfl hp.run hs hr4 hfired hp.stop)
+            exact fire _ id (mkFireable hp.fault rfl hp.run hs hr4 hfired hstop3)
         · rw [heq2]; dsimp only
           exact fire _ id (mkFireable hf rfl hm hs hr2 hfired hstop)
       · rw [heq]; dsimp only
@@ -269,7 +267,11 @@ theorem runInternal_weak (C : TQContract) (fuel : Nat) (s : State) (h : Good C (
       rw [← hwt]; rfl
     rw [hs2]
     apply mainLoop_weak
-    refine ⟨hp.fault, m2, hp.run, hp.rel, Or.inl hp.stop, Or.inr ⟨rfl, ?_, ?_⟩⟩
+    refine ⟨hp.fault, m2, hp.run, hp.rel, ?_, Or.inr ⟨rfl, ?_, ?_⟩⟩
+    · -- an interrupt request made during the blocking poll: dispatching has stopped, the loop returns 0 at its top
+      rcases hp.stop with h | ⟨_, h⟩
+      · exact Or.inl h
+      · exact Or.inr h
     · intro _ hsr
       rw [hp.sr, hb.sr] at hsr
       exact runnable_mono hp.imms hp.tms hp.clock hsr
